@@ -148,6 +148,20 @@ func probesFor(rng interface {
 		}
 		add(fmt.Sprintf("random-%d", n), o4.ProbeScript{Segments: [][]byte{junk(rng, n)}, CloseAfter: never, Policy: pol(), Garbage: []int{0, 100}[rng.IntN(2)], Window: []int{0, 4096}[rng.IntN(2)]})
 	}
+	// megabytes: a probe that keeps pouring data in after its handshake has
+	// failed ("keeps reading and discarding whatever the peer sends"): 20 kB
+	// at once, then 64 KiB every 100 ms — 2.5 MiB within the first four
+	// seconds, long before any close time
+	if full {
+		segs := [][]byte{junk(rng, 20000)}
+		gaps := []time.Duration{0}
+		blk := junk(rng, 1<<16)
+		for i := 0; i < 40; i++ {
+			segs = append(segs, blk)
+			gaps = append(gaps, 100*time.Millisecond)
+		}
+		add("megabytes", o4.ProbeScript{Segments: segs, Gaps: gaps, CloseAfter: never, Window: 1 << 17})
+	}
 	// truncated / extended / bit-flipped valid hello
 	for bnd := 0; bnd < 11; bnd++ {
 		if !full && rng.IntN(3) != 0 {
